@@ -2,13 +2,13 @@ SPECIFICATION Spec
 CONSTANTS
   EvilConn = {"e1", "e2"}
   LegitConn = {"l1"}
-  FinishKinds = {"genuine", "wrongkey", "stale", "reordered", "replayed", "unknown", "self", "selfkey", "replayown", "reflect", "crossname", "badseal", "short", "badtlv"}
+  FinishKinds = {"genuine", "wrongkey", "stale", "reordered", "replayed", "unknown", "genuine_inject", "self", "selfkey", "replayown", "reflect", "crossname", "badseal", "short", "badtlv"}
   StartLens = {"ok", "sameA", "short", "long", "empty"}
   Ops = {"GetAcc", "GetChar", "PutVal", "PutSub", "Resource", "AddPair", "RemPair"}
   Noise = {"psstart", "pswrong", "pszero"}
   MaxExch = 2
   Weak = {}
 INVARIANTS TypeOK VerifiedRule NoCarryOver
-PROPERTIES ErrorRule FinishAnswersStart GateRule RefusalChangesNothing OnlyVerifiedGetEvents
+PROPERTIES NoPlainInSession ErrorRule FinishAnswersStart GateRule RefusalChangesNothing OnlyVerifiedGetEvents
 VIEW View
 CHECK_DEADLOCK FALSE
